@@ -304,8 +304,12 @@ class Bisection1D:
         # adding a check here to ensure we pick the smallest field with
         # negative excess temperature
         num_bh = [len(self.coordinates_domain[x]) for x in keys]
-        sorted_num_bh, sorted_values = (list(t) for t in zip(*sorted(zip(num_bh, values))))
-        for _, val in zip(sorted_num_bh, sorted_values):
+        selection_key = keys[values.index(excess_of_interest)]
+        # carry the keys through the sort: looking the chosen excess up by value afterwards returns the
+        # FIRST evaluated field with that value, which is the largest one when several fields tie
+        # (e.g. a plateau where the lower limit binds at the undisturbed ground temperature)
+        sorted_num_bh, sorted_values, sorted_keys = (list(t) for t in zip(*sorted(zip(num_bh, values, keys))))
+        for _, val, key in zip(sorted_num_bh, sorted_values, sorted_keys):
             if val < 0:
                 if excess_of_interest != val:
                     print(
@@ -314,10 +318,9 @@ class Bisection1D:
                         'Please forward the inputs to the developers for investigation.'
                     )
                 excess_of_interest = val
+                selection_key = key
                 break
 
-        idx = values.index(excess_of_interest)
-        selection_key = keys[idx]
         self.initialize_ghe(
             self.coordinates_domain[selection_key], self.sim_params.max_height, self.fieldDescriptors[selection_key]
         )
